@@ -477,9 +477,12 @@ def standard_check(ctx, std):
           "vlib/core.py runner (diff, monitor application, shrinking)"] + list(std.trusted_base)
     # ---- 1. proof obligations
     bad_tokens = forbidden_scan()
-    ok_build, blog = coq_build(["Props/Properties_%s.vo" % pid] + list(std.extra_coq_targets))
-    ob = obligations(pid) if os.path.exists(os.path.join(COQ, "Props", "Properties_%s.v" % pid)) else \
-        dict(names=[], ok=False, axioms=[], bad_axioms=[], log="missing Properties file", file="-", closed_blocks=0)
+    with _Lock("coqsession.lock"):  # translate + build + re-check as one unit, so that a concurrent run
+        # against another source tree (VERIF_REPO) cannot swap the generated constants in between
+        ok_build, blog = coq_build(["Props/Properties_%s.vo" % pid] + list(std.extra_coq_targets))
+        ob = obligations(pid) if os.path.exists(os.path.join(COQ, "Props", "Properties_%s.v" % pid)) else \
+            dict(names=[], ok=False, axioms=[], bad_axioms=[], log="missing Properties file", file="-", closed_blocks=0)
+        model_bin, mlog = build_model(std.component)
     proof_ok = ok_build and ob["ok"] and not ob["bad_axioms"] and not bad_tokens and len(ob["names"]) > 0
     proof_fail_text = ""
     if not proof_ok:
@@ -495,7 +498,6 @@ def standard_check(ctx, std):
         if not errs:
             proof_fail_text += (blog + ob["log"])[-1500:]
     # ---- 2. model binary
-    model_bin, mlog = build_model(std.component)
     if model_bin is None:
         res.coverage = dict(obligations=max(len(ob["names"]), 1), discharged=0, checker_cmd="make -C coq",
                             trusted_base=tb, explanation="model extraction failed: " + mlog[-800:])
